@@ -52,3 +52,8 @@ func Returns(fn *ssa.Function) []*ssa.Return {
 	}
 	return out
 }
+
+func RootParam(v ssa.Value) *ssa.Parameter  { return rootParam(v) }
+func HasSliceOnPath(v ssa.Value) bool       { return hasSliceOnPath(v) }
+func IsLenOf(v ssa.Value) (ssa.Value, bool) { return isLenOf(v) }
+func StripConv(v ssa.Value) ssa.Value       { return stripConv(v) }
